@@ -628,7 +628,7 @@ def _all_strings(case):
 
 def kind(case):
     if case.get("t") == "world":
-        return "world:" + "+".join(sorted({op["k"] for op in case["ops"]}))
+        return "world:" + case.get("sc", "witness")
     ks = sorted({op["k"] for op in case["ops"]})
     return ("nocolor+" if case["nc"] else "") + ("init" if not ks else "+".join(ks))
 
@@ -1221,10 +1221,16 @@ def _rand_world(rng, scenario=None):
                 used.add(d[0])
     used = sorted(used)
     watch = sorted(set(rng.sample(used, min(len(used), 5))) | {"KEYWORD", rng.choice(["TEXT", "X1", "NAME"])})
-    return {"t": "world", "objs": objs, "classes": classes, "watch": watch, "ops": ops}
+    return {"t": "world", "sc": scenario, "objs": objs, "classes": classes, "watch": watch, "ops": ops}
 
 
 WORLD_WITNESS = [
+    # repaired by e396ee3 (signature synced-get-color-stale): get_color(name) / make_report() of a synced palette after the
+    # global configuration was replaced
+    {"t": "world", "objs": [{"P.A": "RED"}, {"P.A": "BLUE"}],
+     "classes": [{"d": 0, "parents": [], "acc": [["a", "P.A"]], "g": False}], "watch": ["P.A", "TEXT"],
+     "ops": [{"k": "synced", "cls": 1}, {"k": "new", "nc": False, "init": 1, "builtin": None}, {"k": "setg", "c": 1},
+             {"k": "reg", "c": None, "items": 0}, {"k": "setg", "c": 0}]},
     # the re-entrancy defect repaired by a35bf60 (signature synced-parent-reentrancy): a synced palette whose class has
     # PARENT_PALETTES with SYNTAX_DEFAULTS (like PPEnumFieldType.EnumPalette(synced=True)) + a new global configuration
     {"t": "world", "objs": [{"BASE.X": "RED"}, {"COMP.Y": "BASE.X:bold"}, {}],
@@ -1291,6 +1297,11 @@ def _impl_world(case):
     def ref_attrs(conf, k):
         return [fmt(conf.get_color(sid)) for _, sid in accs[k]]
 
+    def report_ok(p, k):
+        # make_report() shows, for every accessor, its syntax id formatted with the accessor's current formatter
+        want = "\n".join(f"{a}: {C.CHText(getattr(p, a)(sid))}" for a, sid in sorted(accs[k]))
+        return p.make_report() == want
+
     def index_of(conf):
         for n, c in enumerate(confs):
             if c is conf:
@@ -1302,7 +1313,8 @@ def _impl_world(case):
         now = [_canon(o) for o in objs] + [_canon(C.ColorsConfig.BUILT_IN_CONFIG)]
         return [index_of(g),
                 [[fmt(c.get_color(i)) for i in watch] for c in confs],
-                [[attrs(p, k), [fmt(p[i]) for i in watch] if is_g[k] else None, ref_attrs(g, k)] for p, k in synced],
+                [[attrs(p, k), [fmt(p[i]) for i in watch] if is_g[k] else None, ref_attrs(g, k),
+                  None if is_g[k] else [fmt(p.get_color(a)) for a, _ in accs[k]], report_ok(p, k)] for p, k in synced],
                 [n for n, (a, b) in enumerate(zip(orig, now)) if a != b]]
 
     steps = [["ok", 0, [], None] + snapshot()]
@@ -1420,7 +1432,8 @@ def _expected_world(case, obs):
         _, idx, pal, _extra, gi, confs, synced, mut = st
         raw.append([0, idx, [P(x) for x in pal], gi,
                     [[P(x) for x in row] for row in confs],
-                    [[[P(x) for x in a], [P(x) for x in live] if live is not None else []] for a, live, _ in synced],
+                    [[[P(x) for x in e[0]], [P(x) for x in e[1]] if e[1] is not None else [],
+                      [P(x) for x in e[3]] if e[3] is not None else []] for e in synced],
                     list(mut)])
     table = sorted(seen)
     pos = {t: n for n, t in enumerate(table)}
@@ -1561,7 +1574,11 @@ def _oracle_world(case, obs):
             break
         bad = None
         # (3) access paths agree with the configuration they stand for, at this very moment
-        for j, (a, live, ref) in enumerate(spals):
+        for j, (a, live, ref, gc, rep) in enumerate(spals):
+            if (gc is not None and gc != a) or not rep:
+                bad = ("synced-get-color-stale", f"after {what}: synced palette #{j}: get_color(accessor name) gives {gc!r}, "
+                                                 f"the accessor attributes are {a!r}; make_report() agrees with the attributes: {rep}")
+                break
             if a != ref:
                 bad = ("synced-stale", f"after {what}: accessor attributes of synced palette #{j} (class {synced[j] if j < len(synced) else '?'}) "
                                        f"are {a!r}, the global configuration's get_color gives {ref!r}")
@@ -1587,7 +1604,7 @@ def _oracle_world(case, obs):
                     break
         if bad is None and specs[state["g"]] is not None:
             S, cf = specs[state["g"]], confs[state["g"]]
-            for j, (a, live, ref) in enumerate(spals):
+            for j, (a, live, ref, gc, rep) in enumerate(spals):
                 if j >= len(synced):
                     break
                 want = [_spec_color(S, sid, cf["nc"], dflt) for sid in cls[synced[j]]["accids"]]
